@@ -101,10 +101,14 @@ Fixpoint bare_use (ts : list bytes) : bool :=
 (* 2: bytes 0x00-0x08 and 0x0e-0x1f separate tokens like white space *)
 Definition ctrl_byte (c : ascii) : bool := is_ws c && negb (is_sp c).
 
+(* both classes contain only inputs that are accepted (by the model; the correspondence check
+   ties that to the implementation), so a crash or a rejection inside them is not excused *)
+Definition accepted (input : bytes) : bool := match decode input with ROk _ => true | _ => false end.
 Definition kf (c : case) : N :=
   match c with
   | CDep _ input _ =>
-    if existsb ctrl_byte input then 2
+    if negb (accepted input) then 0
+    else if existsb ctrl_byte input then 2
     else if bare_use (ptokens input) then 1
     else 0
   | _ => 0
